@@ -1,7 +1,26 @@
 package main
 
+import (
+	"fmt"
+	"go/ast"
+	"go/token"
+	"os"
+	"os/exec"
+	"path/filepath"
+	"regexp"
+	"strconv"
+	"strings"
+)
+
 // FmtPGP — OpenPGP packet framing written by relic itself (lib/pgptools/inline.go: the literal data packet of an inline
 // signed message).  Thresholds and octet expressions of serializeHeader are translated; the model in coq/FmtPGP is built from them.
+//
+// Second part (pgp_cs_*): the cleartext signature path of lib/pgptools/clearsign.go (ClearSign / DetachClearSign / tailClearSign /
+// MergeClearSign / headClearSign): which line reader splits the signer's stream into lines and with which limits, the loop bodies
+// as ordered step lists, the marker comparison, the line terminators written, what happens to a reader error, whether the pipe is
+// closed before the result is reported.  The constants of the Go standard library the readers depend on (bufio.MaxScanTokenSize,
+// bufio's default buffer size) are read from GOROOT, the decisions of the cleartext encoder (go-crypto clearsign.dashEscaper: the
+// trailing-whitespace set, the dash test, the line feed test, the escape prefix) from the module cache.
 func init() {
 	generators["FmtPGP_gen"] = func(o *out) {
 		const d = "lib/pgptools"
@@ -31,5 +50,429 @@ func init() {
 		for _, fn := range []string{"serializeHeader", "serializeLiteral", "MergeSignature", "getSize", "writeOnePass"} {
 			fingerprint(d, "", fn)
 		}
+		pgpcsGenerate(o, d)
 	}
+}
+
+// ---------------------------------------------------------------- cleartext signature path
+
+// pgpcsGoEnv returns GOROOT and GOMODCACHE of the toolchain that builds the harness.
+func pgpcsGoEnv() (goroot, modcache string) {
+	cmd := exec.Command("go", "env", "GOROOT", "GOMODCACHE")
+	cmd.Env = append(os.Environ(), "GOFLAGS=-mod=mod", "GOPROXY=off", "GOSUMDB=off", "GOTOOLCHAIN=local")
+	outb, err := cmd.Output()
+	if err == nil {
+		ls := strings.Split(strings.TrimSpace(string(outb)), "\n")
+		if len(ls) == 2 {
+			return strings.TrimSpace(ls[0]), strings.TrimSpace(ls[1])
+		}
+	}
+	home, _ := os.UserHomeDir()
+	return os.Getenv("GOROOT"), filepath.Join(home, "go", "pkg", "mod")
+}
+
+// pgpcsRel turns an absolute directory into a path relative to the repo root (loadPkg joins every dir with the repo root).
+func pgpcsRel(abs string) string {
+	r, err := filepath.Rel(repo, abs)
+	if err != nil {
+		return abs
+	}
+	return r
+}
+
+// pgpcsModDir: directory of a dependency of /repo in the module cache, version taken from /repo/go.mod.
+func pgpcsModDir(modcache, module, sub string) string {
+	gm, err := os.ReadFile(filepath.Join(repo, "go.mod"))
+	if err != nil {
+		return ""
+	}
+	m := regexp.MustCompile(`(?m)^\s*` + regexp.QuoteMeta(module) + `\s+(v[^\s]+)`).FindStringSubmatch(string(gm))
+	if m == nil {
+		return ""
+	}
+	var esc strings.Builder // module cache escaping: upper case letter -> '!' + lower case
+	for _, c := range module {
+		if c >= 'A' && c <= 'Z' {
+			esc.WriteByte('!')
+			esc.WriteRune(c + 32)
+		} else {
+			esc.WriteRune(c)
+		}
+	}
+	return filepath.Join(modcache, esc.String()+"@"+m[1], sub)
+}
+
+// pgpcsVarBytes emits a package-level `var name = []byte("literal")` as a byte list.
+func pgpcsVarBytes(o *out, dir, goName, coqName string) {
+	ce, _, _, _ := findConstExpr(dir, goName)
+	if call, ok := ce.(*ast.CallExpr); ok && len(call.Args) == 1 {
+		if at, ok := call.Fun.(*ast.ArrayType); ok && at.Len == nil {
+			if id, ok := at.Elt.(*ast.Ident); ok && id.Name == "byte" {
+				if bl, ok := call.Args[0].(*ast.BasicLit); ok && bl.Kind == token.STRING {
+					s, _ := strconv.Unquote(bl.Value)
+					o.f("Definition %s : list Z := %s. (* %s.%s = []byte(%q) *)\n", coqName, bytesLit([]byte(s)), dir, goName, s)
+					return
+				}
+			}
+		}
+	}
+	o.brokenDef(coqName, "variable "+dir+"."+goName+" is not []byte(\"literal\")")
+}
+
+// pgpcsBodies: the body of fn plus the bodies of the package-level helpers of the same package it calls (one level), so that a line
+// reader moved into a helper is still seen.
+func pgpcsBodies(dir, name string) (*pkgInfo, *ast.FuncDecl, []*ast.BlockStmt) {
+	p, fd := findFunc(dir, "", name)
+	if fd == nil {
+		return p, nil, nil
+	}
+	bodies := []*ast.BlockStmt{fd.Body}
+	seen := map[string]bool{name: true}
+	ast.Inspect(fd.Body, func(n ast.Node) bool {
+		if ce, ok := n.(*ast.CallExpr); ok {
+			if id, ok := ce.Fun.(*ast.Ident); ok && !seen[id.Name] {
+				seen[id.Name] = true
+				if _, h := findFunc(dir, "", id.Name); h != nil && h.Body != nil {
+					bodies = append(bodies, h.Body)
+				}
+			}
+		}
+		return true
+	})
+	return p, fd, bodies
+}
+
+// pgpcsReader classifies the line reader of fn and emits <prefix>_reader (1 = bufio.Scanner with the default split function
+// ScanLines; 2 = bufio.Reader.ReadLine whose isPrefix result is discarded), <prefix>_max_token (Scanner: the token limit) and
+// <prefix>_bufsize (Reader: the buffer size).  Anything else is a broken tie: the model has no definition for it.
+func pgpcsReader(o *out, dir, name, prefix, goBufio string) {
+	p, fd, bodies := pgpcsBodies(dir, name)
+	if fd == nil {
+		o.brokenDef(prefix+"_reader", "function "+dir+"."+name+" not found")
+		return
+	}
+	scanner, reader, readLine, prefixDropped := false, false, false, false
+	var maxTok, bufSize ast.Expr
+	other := ""
+	for _, b := range bodies {
+		ast.Inspect(b, func(n ast.Node) bool {
+			switch x := n.(type) {
+			case *ast.CallExpr:
+				fn := printNode(p.fset, x.Fun)
+				switch {
+				case fn == "bufio.NewScanner":
+					scanner = true
+				case fn == "bufio.NewReader":
+					reader = true
+				case fn == "bufio.NewReaderSize" && len(x.Args) == 2:
+					reader, bufSize = true, x.Args[1]
+				case strings.HasSuffix(fn, ".Buffer") && len(x.Args) == 2:
+					maxTok = x.Args[1]
+				case strings.HasSuffix(fn, ".Split"):
+					if len(x.Args) != 1 || printNode(p.fset, x.Args[0]) != "bufio.ScanLines" {
+						other = "Scanner.Split with a split function other than bufio.ScanLines"
+					}
+				case strings.HasSuffix(fn, ".ReadLine"):
+					readLine = true
+				case strings.HasSuffix(fn, ".ReadString"), strings.HasSuffix(fn, ".ReadBytes"), strings.HasSuffix(fn, ".ReadSlice"),
+					strings.HasSuffix(fn, ".ReadRune"), strings.HasSuffix(fn, ".ReadByte"), fn == "io.ReadAll", fn == "ioutil.ReadAll":
+					other = "line reader built on " + fn
+				}
+			case *ast.AssignStmt:
+				if len(x.Rhs) == 1 && len(x.Lhs) == 3 {
+					if ce, ok := x.Rhs[0].(*ast.CallExpr); ok && strings.HasSuffix(printNode(p.fset, ce.Fun), ".ReadLine") {
+						if id, ok := x.Lhs[1].(*ast.Ident); ok && id.Name == "_" {
+							prefixDropped = true
+						}
+					}
+				}
+			}
+			return true
+		})
+	}
+	kind := 0
+	switch {
+	case other != "":
+	case scanner && !reader && !readLine:
+		kind = 1
+	case reader && readLine && prefixDropped && !scanner:
+		kind = 2
+	case reader && readLine && !prefixDropped:
+		other = "bufio.Reader.ReadLine with isPrefix handling"
+	default:
+		other = "no recognised line reader"
+	}
+	if kind == 0 {
+		o.brokenDef(prefix+"_reader", name+": "+other+" (not modelled)")
+		return
+	}
+	o.f("Definition %s_reader : Z := %d. (* %s.%s: 1 = bufio.Scanner + ScanLines, 2 = bufio.Reader.ReadLine with isPrefix discarded *)\n", prefix, kind, dir, name)
+	emit := func(suffix string, e ast.Expr, dflt string, floor int64) {
+		if e == nil {
+			o.f("Definition %s_%s : Z := %s. (* %s.%s: library default *)\n", prefix, suffix, dflt, dir, name)
+			return
+		}
+		v, err := evalConst(dir, e, 0)
+		if err != nil || v.isFloat {
+			o.brokenDef(prefix+"_"+suffix, fmt.Sprintf("%s: size argument %s is not a constant expression", name, printNode(p.fset, e)))
+			return
+		}
+		if v.i < floor {
+			v.i = floor
+		}
+		o.f("Definition %s_%s : Z := %d. (* %s.%s: %s *)\n", prefix, suffix, v.i, dir, name, printNode(p.fset, e))
+	}
+	emit("max_token", maxTok, "go_bufio_MaxScanTokenSize", 0)
+	emit("bufsize", bufSize, "go_bufio_defaultBufSize", 16) // bufio: minReadBufferSize = 16
+	_ = goBufio
+}
+
+// pgpcsLoop finds the single for statement of fn and emits its top-level body as an ordered list of step classes:
+//
+//	0  line := <reader>                       4  if <reader error / EOF test> {...}   (no effect on what is written)
+//	1  if <marker test> { ...; return }       2  write(line)   3  write(crlf)      5  tail: if <copy condition> { copying = true; writes }
+//
+// writer is the printed receiver of the Write calls ("w" in headClearSign).
+func pgpcsLoop(o *out, dir, name, coqName, writer string) *ast.ForStmt {
+	p, fd := findFunc(dir, "", name)
+	if fd == nil {
+		o.brokenDef(coqName, "function "+dir+"."+name+" not found")
+		return nil
+	}
+	var loop *ast.ForStmt
+	n := 0
+	for _, st := range fd.Body.List {
+		if f, ok := st.(*ast.ForStmt); ok {
+			loop = f
+			n++
+		}
+	}
+	if n != 1 {
+		o.brokenDef(coqName, fmt.Sprintf("%s: expected exactly one top-level for statement, found %d", name, n))
+		return nil
+	}
+	var steps, notes []string
+	for _, st := range loop.Body.List {
+		txt := strings.Join(strings.Fields(printNode(p.fset, st)), " ")
+		cls := -1
+		switch x := st.(type) {
+		case *ast.AssignStmt:
+			if id, ok := x.Lhs[0].(*ast.Ident); ok && id.Name == "line" && x.Tok == token.DEFINE {
+				cls = 0
+			}
+		case *ast.IfStmt:
+			cond := printNode(p.fset, x.Cond)
+			switch {
+			case x.Init != nil:
+				init := strings.Join(strings.Fields(printNode(p.fset, x.Init)), " ")
+				if cond == "err != nil" && len(x.Body.List) == 1 && printNode(p.fset, x.Body.List[0]) == "return err" && x.Else == nil {
+					switch init {
+					case "_, err := " + writer + ".Write(line)":
+						cls = 2
+					case "_, err := " + writer + ".Write(crlf)":
+						cls = 3
+					}
+				}
+			case strings.Contains(cond, "copying"):
+				cls = 5
+			case strings.Contains(cond, "sigHeader"):
+				// the marker test must leave the function
+				if k := len(x.Body.List); k > 0 && x.Else == nil {
+					if _, ok := x.Body.List[k-1].(*ast.ReturnStmt); ok {
+						cls = 1
+					}
+				}
+			default:
+				// a test of the reader's error only (err == io.EOF { break } else if err != nil { return ... })
+				onlyErr := true
+				ast.Inspect(x.Cond, func(n ast.Node) bool {
+					if id, ok := n.(*ast.Ident); ok && id.Name != "err" && id.Name != "io" && id.Name != "EOF" && id.Name != "nil" {
+						onlyErr = false
+					}
+					return true
+				})
+				writes := false
+				ast.Inspect(x, func(n ast.Node) bool {
+					if ce, ok := n.(*ast.CallExpr); ok && strings.Contains(printNode(p.fset, ce.Fun), "Write") {
+						writes = true
+					}
+					return true
+				})
+				if onlyErr && !writes {
+					cls = 4
+				}
+			}
+		}
+		if cls < 0 {
+			o.brokenDef(coqName, name+": loop statement not classified: "+txt)
+			return loop
+		}
+		steps = append(steps, strconv.Itoa(cls))
+		notes = append(notes, txt)
+	}
+	o.f("Definition %s : list Z := [%s]. (* %s.%s loop body: %s *)\n", coqName, strings.Join(steps, "; "), dir, name, strings.Join(notes, " ;; "))
+	return loop
+}
+
+// pgpcsTailWrites: inside the copy block of tailClearSign, the writes in order: (0, []) = the line, (1, bytes) = a literal.
+func pgpcsTailWrites(o *out, dir, name, coqName string, loop *ast.ForStmt) {
+	p, _ := findFunc(dir, "", name)
+	if loop == nil {
+		o.brokenDef(coqName, name+": no loop")
+		return
+	}
+	var items []string
+	okAll := true
+	for _, st := range loop.Body.List {
+		is, ok := st.(*ast.IfStmt)
+		if !ok || !strings.Contains(printNode(p.fset, is.Cond), "copying") {
+			continue
+		}
+		for _, b := range is.Body.List {
+			txt := strings.Join(strings.Fields(printNode(p.fset, b)), " ")
+			if txt == "copying = true" {
+				continue
+			}
+			es, ok := b.(*ast.ExprStmt)
+			if !ok {
+				okAll = false
+				continue
+			}
+			call, ok := es.X.(*ast.CallExpr)
+			if !ok || len(call.Args) != 1 {
+				okAll = false
+				continue
+			}
+			fn, arg := printNode(p.fset, call.Fun), printNode(p.fset, call.Args[0])
+			bl, isLit := call.Args[0].(*ast.BasicLit)
+			switch {
+			case fn == "out.Write" && arg == "line":
+				items = append(items, "(0, [])")
+			case fn == "out.Write" && arg == "crlf":
+				items = append(items, "(1, [13; 10])")
+			case fn == "out.WriteString" && isLit && bl.Kind == token.STRING:
+				s, _ := strconv.Unquote(bl.Value)
+				items = append(items, "(1, "+bytesLit([]byte(s))+")")
+			default:
+				okAll = false
+			}
+		}
+	}
+	if !okAll || len(items) == 0 {
+		o.brokenDef(coqName, name+": copy block contains a statement that is not a write of the line or of a literal")
+		return
+	}
+	o.f("Definition %s : list (Z * list Z) := [%s]. (* %s.%s copy block: (0, _) = the line, (1, b) = literal b *)\n", coqName, strings.Join(items, "; "), dir, name)
+}
+
+// pgpcsGoroutine: in fn, the function literal started with `go`: does it close the read side of the pipe (readPipe.CloseWithError)
+// BEFORE it sends its result on the channel?  If not, a reader that stops early leaves the writer blocked for ever.
+func pgpcsGoroutine(o *out, dir, name, coqName string) {
+	p, fd := findFunc(dir, "", name)
+	if fd == nil {
+		o.brokenDef(coqName, "function "+dir+"."+name+" not found")
+		return
+	}
+	var lit *ast.FuncLit
+	ast.Inspect(fd.Body, func(n ast.Node) bool {
+		if g, ok := n.(*ast.GoStmt); ok && lit == nil {
+			if fl, ok := g.Call.Fun.(*ast.FuncLit); ok {
+				lit = fl
+			}
+		}
+		return true
+	})
+	if lit == nil {
+		o.brokenDef(coqName, name+": no goroutine literal")
+		return
+	}
+	idxClose, idxSend := -1, -1
+	for i, st := range lit.Body.List {
+		txt := strings.Join(strings.Fields(printNode(p.fset, st)), " ")
+		if strings.Contains(txt, "readPipe.CloseWithError(") || strings.Contains(txt, "readPipe.Close()") {
+			if idxClose < 0 {
+				idxClose = i
+			}
+		}
+		if _, ok := st.(*ast.SendStmt); ok && idxSend < 0 {
+			idxSend = i
+		}
+	}
+	if idxSend < 0 {
+		o.brokenDef(coqName, name+": goroutine does not send its result at top level")
+		return
+	}
+	o.f("Definition %s : bool := %v. (* %s.%s: the reading goroutine closes readPipe before `done <- ...` *)\n", coqName, idxClose >= 0 && idxClose < idxSend, dir, name)
+}
+
+// pgpcsFingerprint records the fingerprint of a function outside /repo under a key that does not depend on where /repo lives.
+func pgpcsFingerprint(dir, alias, recv, name string) {
+	fp := fingerprint(dir, recv, name)
+	delete(fingers, dir+":"+recv+"."+name)
+	fingers[alias+":"+recv+"."+name] = fp
+}
+
+func pgpcsGenerate(o *out, d string) {
+	goroot, modcache := pgpcsGoEnv()
+	bufioDir := pgpcsRel(filepath.Join(goroot, "src", "bufio"))
+	o.f("\n(* ---- cleartext signatures (lib/pgptools/clearsign.go); Go standard library constants from GOROOT/src/bufio, encoder decisions from go-crypto in the module cache *)\n")
+	o.constInt(bufioDir, "MaxScanTokenSize", "go_bufio_MaxScanTokenSize")
+	o.constInt(bufioDir, "defaultBufSize", "go_bufio_defaultBufSize")
+	// the error test of Scanner.Scan when the buffer is full and holds no token
+	o.condOf(funcSpec{dir: bufioDir, recv: "Scanner", name: "Scan", coqName: "go_bufio_scan_full_is_error", params: "(buflen max_token : Z)", retType: "bool",
+		leaves: map[string]string{"len(s.buf)": "buflen", "s.maxTokenSize": "max_token", "maxInt/2": "4611686018427387903", "maxInt / 2": "4611686018427387903"}}, "if:s.maxTokenSize")
+	pgpcsFingerprint(bufioDir, "GOROOT/src/bufio", "", "ScanLines")
+	pgpcsFingerprint(bufioDir, "GOROOT/src/bufio", "", "dropCR")
+	pgpcsFingerprint(bufioDir, "GOROOT/src/bufio", "Scanner", "Scan")
+	pgpcsFingerprint(bufioDir, "GOROOT/src/bufio", "Reader", "ReadLine")
+
+	pgpcsVarBytes(o, d, "sigHeader", "pgp_cs_sig_header")
+	pgpcsVarBytes(o, d, "crlf", "pgp_cs_crlf")
+	// ClearSign: encoder, copy, close, then the trailing line terminator
+	o.hasStmt(d, "", "ClearSign", "_, err = w.Write(crlf)", "pgp_cs_clearsign_writes_crlf")
+
+	// headClearSign
+	pgpcsReader(o, d, "headClearSign", "pgp_cs_head", bufioDir)
+	pgpcsLoop(o, d, "headClearSign", "pgp_cs_head_steps", "w")
+	eq := map[string]string{"bytes.Equal": "bytes_eqb"}
+	lv := map[string]string{"line": "line", "sigHeader": "sig_header", "copying": "copying"}
+	ty := map[string]string{"copying": "bool", "bytes.Equal()": "bool"}
+	o.condOf(funcSpec{dir: d, name: "headClearSign", coqName: "pgp_cs_head_is_sig", params: "(line sig_header : list Z)", retType: "bool", leaves: lv, types: ty, calls: eq}, "if:sigHeader")
+	o.hasStmt(d, "", "headClearSign", "_, err := io.Copy(io.Discard, r)", "pgp_cs_head_drains")
+	o.hasStmt(d, "", "headClearSign", "if s.Err() != nil { return s.Err() }", "pgp_cs_head_returns_scan_err")
+
+	// tailClearSign
+	pgpcsReader(o, d, "tailClearSign", "pgp_cs_tail", bufioDir)
+	tl := pgpcsLoop(o, d, "tailClearSign", "pgp_cs_tail_steps", "out")
+	o.condOf(funcSpec{dir: d, name: "tailClearSign", coqName: "pgp_cs_tail_copy_cond", params: "(copying : bool) (line sig_header : list Z)", retType: "bool", leaves: lv, types: ty, calls: eq}, "if:copying")
+	o.hasStmt(d, "", "tailClearSign", "copying = true", "pgp_cs_tail_sets_copying")
+	pgpcsTailWrites(o, d, "tailClearSign", "pgp_cs_tail_writes", tl)
+	o.hasStmt(d, "", "tailClearSign", "return out.Bytes(), s.Err()", "pgp_cs_tail_returns_scan_err")
+
+	// DetachClearSign / MergeClearSign: the goroutines and what follows them
+	pgpcsGoroutine(o, d, "DetachClearSign", "pgp_cs_detach_closes_pipe")
+	pgpcsGoroutine(o, d, "MergeClearSign", "pgp_cs_merge_closes_pipe")
+	o.callOrder(d, "", "MergeClearSign", "pgp_cs_merge_calls", []string{"configFromSig", "headClearSign", "ClearSign", "out.Write", "out.Flush"})
+	o.hasStmt(d, "", "MergeClearSign", "if err := <-done; err != nil { return err }", "pgp_cs_merge_returns_head_err")
+	for _, fn := range []string{"ClearSign", "DetachClearSign", "tailClearSign", "MergeClearSign", "headClearSign", "configFromSig"} {
+		fingerprint(d, "", fn)
+	}
+
+	// the cleartext encoder of github.com/ProtonMail/go-crypto (version pinned by /repo/go.mod)
+	cs := pgpcsModDir(modcache, "github.com/ProtonMail/go-crypto", "openpgp/clearsign")
+	if cs == "" {
+		o.brokenDef("pgp_esc_is_ws", "github.com/ProtonMail/go-crypto not found in /repo/go.mod")
+		return
+	}
+	csDir := pgpcsRel(cs)
+	bl := map[string]string{"b": "b"}
+	o.condOf(funcSpec{dir: csDir, recv: "dashEscaper", name: "Write", coqName: "pgp_esc_is_ws", params: "(b : Z)", retType: "bool", leaves: bl}, "if:b == ' '")
+	o.condOf(funcSpec{dir: csDir, recv: "dashEscaper", name: "Write", coqName: "pgp_esc_is_dash", params: "(b : Z)", retType: "bool", leaves: bl}, "if:b == '-'")
+	o.condOf(funcSpec{dir: csDir, recv: "dashEscaper", name: "Write", coqName: "pgp_esc_is_lf", params: "(b : Z)", retType: "bool", leaves: bl}, "if:b == '\\n'", 0)
+	pgpcsVarBytes(o, csDir, "dashEscape", "pgp_esc_dash_escape")
+	pgpcsVarBytes(o, csDir, "crlf", "pgp_esc_crlf")
+	pgpcsVarBytes(o, csDir, "start", "pgp_esc_start")
+	pgpcsFingerprint(csDir, "go-crypto/openpgp/clearsign", "dashEscaper", "Write")
+	pgpcsFingerprint(csDir, "go-crypto/openpgp/clearsign", "dashEscaper", "Close")
+	pgpcsFingerprint(csDir, "go-crypto/openpgp/clearsign", "", "EncodeMulti")
 }
